@@ -255,6 +255,7 @@ type result struct {
 	Local         int            `json:"local"`
 	Forward       int            `json:"forward"`
 	NoReply       int            `json:"noreply"`
+	Aborted       bool           `json:"aborted"` // too many steps without reply: the run was cut short
 	PrepNoID      int            `json:"prepare_answered_with_error_no_execute"`
 	MismatchTotal int            `json:"mismatch_total"`
 	ViaCounts     map[string]int `json:"via_counts"`
@@ -364,7 +365,7 @@ func (w *worker) roundtrip(c *cqlclient.Client, stream int16, msg message.Messag
 	frm := frame.NewFrame(primitive.ProtocolVersion4, stream, msg)
 	frm.SetCustomPayload(map[string][]byte{"verif-token": []byte(tok)})
 	n0 := w.t.Len()
-	r, err := c.Roundtrip(frm, tok, "c09", 10*time.Second)
+	r, err := c.Roundtrip(frm, tok, "c09", 8*time.Second)
 	evs := w.t.Events()
 	if n0 > len(evs) {
 		n0 = len(evs)
@@ -522,10 +523,26 @@ func main() {
 	}
 
 	var behs []*Beh
+	pool := map[string]string{} // the steps repeat a few hundred distinct strings
+	intern := func(p *string) {
+		if v, ok := pool[*p]; ok {
+			*p = v
+		} else {
+			pool[*p] = *p
+		}
+	}
 	if err := hutil.ReadJSONLines(*in, func(line []byte) error {
 		b := &Beh{}
 		if err := json.Unmarshal(line, b); err != nil {
 			return err
+		}
+		intern(&b.Cur)
+		intern(&b.Via)
+		for i := range b.Steps {
+			st := &b.Steps[i]
+			for _, p := range []*string{&st.Op, &st.Role, &st.Kind, &st.Shape, &st.Pre, &st.Qual, &st.Table, &st.Post, &st.Text, &st.Ks, &st.Disp, &st.Cc, &st.Qc, &st.Tc} {
+				intern(p)
+			}
 		}
 		behs = append(behs, b)
 		return nil
@@ -671,6 +688,15 @@ func main() {
 				}()
 				n := 0
 				for k := wi; k < len(chosen); k += *nw {
+					res.mu.Lock()
+					stop := res.NoReply > 12
+					if stop {
+						res.Aborted = true
+					}
+					res.mu.Unlock()
+					if stop {
+						break
+					}
 					w.runBehaviour(chosen[k], n < 1 && wi < 4)
 					n++
 				}
